@@ -867,6 +867,16 @@ def run_cl_property(prop, tier):
             else:
                 raise ToolError("slice MC_clproto failed: " + o3[-2000:])
         pstats = tlc_stats(o3)
+        # the same invariants with every combination of deviations (specification level only: not exported)
+        rc, o4 = tlc("MC_clproto", cfg_text({"MaxN": 3, "MaxDev": 8}, init="Init", invariants=["C14honest", "C14refuses", "C13unique", "C15asmade"]),
+                     "%s_clproto_alldev" % prop, workers=4, timeout=3000)
+        if "Model checking completed. No error has been found." not in o4:
+            m = re.search(r"Invariant (\w+) is violated", o4)
+            if m:
+                violations.append({"property": prop, "what": "TLC: invariant %s of MC_clproto fails with unrestricted deviations (specification level)" % m.group(1)})
+            else:
+                raise ToolError("slice MC_clproto (all deviations) failed: " + o4[-2000:])
+        alldev_states = tlc_stats(o4)["distinct"]
         pcases = os.path.join(BUILD, "cl_proto_cases_%s_%s.ndjson" % (prop, tier))
         with open(pcases, "w") as f:
             for m in re.finditer(r'^<<"CASE", "(.*)">>$', o3, re.M):
@@ -880,7 +890,7 @@ def run_cl_property(prop, tier):
         for mm in mine[:10]:
             violations.append({"property": prop, "what": "decision of %s in a behaviour of MC_clproto (case %d, step %d)" % (mm["op"], mm["case"], mm["step"]),
                                "expected": mm["expected"], "observed": mm["observed"], "steps": mm["steps"], "args": mm["args"]})
-        proto = {"constants": pconsts, "states": pstats["distinct"], "behaviours": pr["cases"], "steps": pr["steps"], "decisions_compared": pr["checks"],
+        proto = {"constants": pconsts, "states": pstats["distinct"], "states_with_unrestricted_deviations_MaxN3": alldev_states, "behaviours": pr["cases"], "steps": pr["steps"], "decisions_compared": pr["checks"],
                  "calls": pr["ops"], "mismatches": len(mine), "mismatches_other_properties": len(pr["mismatches"]) - len(mine), "sample": pr["sample"]}
     # --- implementation -> specification: driver logs
     suites = [("1024", 2 if tier == "quick" else 4)] + ([("2048", 2)] if tier == "thorough" else [])
